@@ -1726,10 +1726,13 @@ func (s *Netceptor) handleMessageData(md *MessageData) error {
 
 			return nil
 		}
+		verifhook.Emit(s.vn, "dp_begin", "svc", md.ToService)
 		s.listenerLock.RUnlock()
 		verifhook.Gate("deliver_after_lookup")
 		select {
 		case <-pc.context.Done():
+			verifhook.Emit(s.vn, "dp_deliver_closed", "svc", md.ToService)
+
 			return nil
 		case pc.recvChan <- md:
 			if verifhook.On {
